@@ -50,7 +50,14 @@ def main():
         sh(["git", "-C", wt, "checkout", "--", "."])
         sh(["git", "-C", wt, "clean", "-fdq", "-e", "target"])
 
-    def place():
+    def place(reverse=False):
+        if meta.get("demo_patch"):
+            cmd = ["git", "-C", wt, "apply"] + (["-R"] if reverse else []) + [os.path.join(d, meta["demo_patch"])]
+            rc, out = sh(cmd)
+            if rc:
+                sys.exit("demo patch does not apply: " + out)
+        if reverse:
+            return
         for f in meta["demo_files"]:
             dst = os.path.join(wt, f["dst"])
             os.makedirs(os.path.dirname(dst), exist_ok=True)
@@ -74,6 +81,7 @@ def main():
         m = re.findall(r"panicked at[^\n]*\n[^\n]*", out)
         res["demo_with_change_excerpt"] = (m[0] if m else out[-400:])[:600]
         # the repository's own suite, without the demo files
+        place(reverse=True)
         for f in meta["demo_files"]:
             os.remove(os.path.join(wt, f["dst"]))
         rc, out = sh("cargo test --workspace --no-fail-fast --offline -j 8", cwd=wt)
